@@ -1,6 +1,6 @@
 import FatVerif.Proofs.LfnBuilder
-/-! The `Vec` builder on runs of long-name slots: continuing slots fill the buffer downwards (`tail_run`),
-    any mismatch kills the run (`tail_mismatch`). -/
+/-! The builder (either buffer variant) on runs of long-name slots: continuing slots fill the live part of the buffer
+    downwards (`tail_run`), any mismatch kills the run (`tail_mismatch`). -/
 namespace FatVerif
 namespace Lfn
 open LongNameBuilder
@@ -24,51 +24,63 @@ theorem tailUnits_length (c : Nat) : ∀ T j, TailOk c T j → (tailUnits T).len
     obtain ⟨h1, _, _, _, h5⟩ := h
     simp [tailUnits, ih _ h5]; omega
 
-/-- cleared `Vec` builder -/
-def DeadV (b : LongNameBuilder) : Prop := b.index = 0 ∧ b.buf = ⟨[], 0⟩
+/-- cleared builder -/
+def Dead (alloc : Bool) (b : LongNameBuilder) : Prop := b.index = 0 ∧ b.buf = LfnBuf.new alloc
 
-theorem DeadV_new : DeadV (new true) := by simp [DeadV, new, LfnBuf.new]
-theorem DeadV_clear (b : LongNameBuilder) : DeadV (clear true b) := by simp [DeadV, clear, LfnBuf.clear, LfnBuf.new]
+theorem Dead_new (alloc : Bool) : Dead alloc (new alloc) := ⟨rfl, rfl⟩
+theorem Dead_clear (alloc : Bool) (b : LongNameBuilder) : Dead alloc (clear alloc b) := ⟨rfl, rfl⟩
 
-theorem DeadV_WF (b : LongNameBuilder) (h : DeadV b) : WF true b := by
+theorem Dead_WF (alloc : Bool) (b : LongNameBuilder) (h : Dead alloc b) : WF alloc b := by
   obtain ⟨h1, h2⟩ := h
-  simp [WF, h1, h2]
+  have := WF_new alloc
+  simpa [WF, new, h1, h2] using this
 
 /-- after `process`: either cleared, or `index`/`chksum` are the slot's -/
-theorem process_result (b : LongNameBuilder) (s : List Nat) :
-    DeadV (process true b s) ∨
-    ((process true b s).index = order s % 32 ∧ (process true b s).chksum = chk s ∧ 1 ≤ order s % 32) := by
+theorem process_result (alloc : Bool) (b : LongNameBuilder) (s : List Nat) :
+    Dead alloc (process alloc b s) ∨
+    ((process alloc b s).index = order s % 32 ∧ (process alloc b s).chksum = chk s ∧ 1 ≤ order s % 32) := by
   by_cases h1 : order s % 32 = 0 ∨ order s % 32 > 20
-  · left; rw [process_invalid _ _ _ h1]; exact DeadV_clear b
+  · left; rw [process_invalid _ _ _ h1]; exact Dead_clear alloc b
   · by_cases h2 : order s / 64 % 2 = 1
     · right; rw [process_last _ _ _ h1 h2]; simp; omega
     · by_cases h3 : b.index = 0 ∨ order s % 32 ≠ b.index - 1 ∨ chk s ≠ b.chksum
-      · left; rw [process_mismatch _ _ _ h1 h2 h3]; exact DeadV_clear b
+      · left; rw [process_mismatch _ _ _ h1 h2 h3]; exact Dead_clear alloc b
       · right; rw [process_cont _ _ _ h1 h2 h3]; simp; omega
 
-theorem DeadV_process (b : LongNameBuilder) (s : List Nat) (h : DeadV b) (hs : ¬ (order s / 64 % 2 = 1)) :
-    DeadV (process true b s) := by
+theorem Dead_process (alloc : Bool) (b : LongNameBuilder) (s : List Nat) (h : Dead alloc b)
+    (hs : ¬ (order s / 64 % 2 = 1)) : Dead alloc (process alloc b s) := by
   by_cases h1 : order s % 32 = 0 ∨ order s % 32 > 20
-  · rw [process_invalid _ _ _ h1]; exact DeadV_clear b
-  · rw [process_mismatch _ _ _ h1 hs (Or.inl h.1)]; exact DeadV_clear b
+  · rw [process_invalid _ _ _ h1]; exact Dead_clear alloc b
+  · rw [process_mismatch _ _ _ h1 hs (Or.inl h.1)]; exact Dead_clear alloc b
 
-theorem DeadV_foldl (c : Nat) : ∀ T j b, TailOk c T j → DeadV b → DeadV (T.foldl (process true) b) := by
+theorem Dead_foldl (alloc : Bool) (c : Nat) : ∀ T j b, TailOk c T j → Dead alloc b →
+    Dead alloc (T.foldl (process alloc) b) := by
   intro T
   induction T with
   | nil => intro _ _ _ h; exact h
   | cons s T ih =>
     intro j b ht hb
     obtain ⟨_, _, h3, _, h5⟩ := ht
-    exact ih _ _ h5 (DeadV_process b s hb h3)
+    exact ih _ _ h5 (Dead_process alloc b s hb h3)
 
-theorem finish_DeadV (b : LongNameBuilder) (n : List Nat) (h : DeadV b) : finish true b n = [] := by
+theorem WF_foldl (alloc : Bool) : ∀ (T : List (List Nat)) b, WF alloc b → WF alloc (T.foldl (process alloc) b) := by
+  intro T
+  induction T with
+  | nil => intro _ h; exact h
+  | cons s T ih => intro b h; exact ih _ (WF_process alloc b s h)
+
+theorem finish_Dead (alloc : Bool) (b : LongNameBuilder) (n : List Nat) (h : Dead alloc b) :
+    finish alloc b n = [] := by
   obtain ⟨h1, h2⟩ := h
-  simp [finish, validateChksum, intoBuf, h1, h2, LfnBuf.asUnits]
+  simp [finish, validateChksum, intoBuf, h1, h2, new_asUnits]
+
+theorem finish_clear (alloc : Bool) (b : LongNameBuilder) (n : List Nat) : finish alloc (clear alloc b) n = [] :=
+  finish_Dead alloc _ n (Dead_clear alloc b)
 
 /-- a builder that does not expect ordinal `j` with checksum `c` next yields no name after such a tail -/
-theorem tail_mismatch (c : Nat) (n : List Nat) (hn : lfnChecksum n = c) :
-    ∀ T j b, TailOk c T j → WF true b → (b.index ≠ j + 1 ∨ b.chksum ≠ c) →
-      finish true (T.foldl (process true) b) n = [] := by
+theorem tail_mismatch (alloc : Bool) (c : Nat) (n : List Nat) (hn : lfnChecksum n = c) :
+    ∀ T j b, TailOk c T j → WF alloc b → (b.index ≠ j + 1 ∨ b.chksum ≠ c) →
+      finish alloc (T.foldl (process alloc) b) n = [] := by
   intro T j b ht hw hm
   cases T with
   | nil =>
@@ -78,69 +90,70 @@ theorem tail_mismatch (c : Nat) (n : List Nat) (hn : lfnChecksum n = c) :
     simp only [List.foldl_nil]
     by_cases hi0 : b.index = 0
     · have hl := h4 hi0
-      simp at h5
-      have : b.buf.units = [] := List.eq_nil_of_length_eq_zero (by omega)
-      simp [finish, validateChksum, intoBuf, hi0, LfnBuf.asUnits, this]
+      simp [finish, validateChksum, intoBuf, hi0, LfnBuf.asUnits, hl]
     · by_cases hc : lfnChecksum n = b.chksum
       · have hi1 : b.index ≠ 1 := by
           rcases hm with h | h
           · simpa using h
           · exact absurd (hn ▸ hc.symm) h
-        simp [finish, validateChksum, intoBuf, hi0, hc, hi1, clear, LfnBuf.clear, LfnBuf.new, LfnBuf.asUnits]
-      · simp [finish, validateChksum, intoBuf, hi0, hc, clear, LfnBuf.clear, LfnBuf.new, LfnBuf.asUnits]
+        simp [finish, validateChksum, intoBuf, hi0, hc, hi1, clear, LfnBuf.clear, new_asUnits]
+      · simp [finish, validateChksum, intoBuf, hi0, hc, clear, LfnBuf.clear, new_asUnits]
   | cons s T =>
     obtain ⟨h1, h2, h3, h4, h5⟩ := ht
     simp only [List.foldl_cons]
-    have hd : DeadV (process true b s) := by
+    have hd : Dead alloc (process alloc b s) := by
       by_cases a1 : order s % 32 = 0 ∨ order s % 32 > 20
-      · rw [process_invalid _ _ _ a1]; exact DeadV_clear b
+      · rw [process_invalid _ _ _ a1]; exact Dead_clear alloc b
       · have : b.index = 0 ∨ order s % 32 ≠ b.index - 1 ∨ chk s ≠ b.chksum := by
           by_cases hi0 : b.index = 0
           · exact Or.inl hi0
           · rcases hm with h | h
             · right; left; omega
             · right; right; rw [h4]; exact fun e => h e.symm
-        rw [process_mismatch _ _ _ a1 h3 this]; exact DeadV_clear b
-    exact finish_DeadV _ n (DeadV_foldl c T _ _ h5 hd)
+        rw [process_mismatch _ _ _ a1 h3 this]; exact Dead_clear alloc b
+    exact finish_Dead alloc _ n (Dead_foldl alloc c T _ _ h5 hd)
 
-/-- a builder expecting ordinal `j` with checksum `c` is completed by such a tail: ordinal 1 reached, the buffer is the
-    tail's units followed by what was already there from `13·j` on -/
-theorem tail_run (c : Nat) : ∀ T j (b : LongNameBuilder), TailOk c T j → b.index = j + 1 → b.chksum = c →
-    b.buf.units.length = b.buf.len → 13 * (j + 1) ≤ b.buf.len → j + 1 ≤ 20 →
-    (T.foldl (process true) b).index = 1 ∧ (T.foldl (process true) b).chksum = c ∧
-    (T.foldl (process true) b).buf.len = b.buf.len ∧
-    (T.foldl (process true) b).buf.units = tailUnits T ++ b.buf.units.drop (13 * j) := by
+/-- a builder expecting ordinal `j` with checksum `c` is completed by such a tail: ordinal 1 reached, the live units are
+    the tail's units followed by what was already there from `13·j` on -/
+theorem tail_run (alloc : Bool) (c : Nat) : ∀ T j (b : LongNameBuilder), TailOk c T j → WF alloc b →
+    b.index = j + 1 → b.chksum = c →
+    (T.foldl (process alloc) b).index = 1 ∧ (T.foldl (process alloc) b).chksum = c ∧
+    (T.foldl (process alloc) b).buf.len = b.buf.len ∧
+    (T.foldl (process alloc) b).buf.asUnits = tailUnits T ++ b.buf.asUnits.drop (13 * j) := by
   intro T
   induction T with
   | nil =>
-    intro j b ht hi hc _ _ _
+    intro j b ht _ hi hc
     simp [TailOk] at ht
     subst ht
     simp [tailUnits, hi, hc]
   | cons s T ih =>
-    intro j b ht hi hc hl hlen h20
+    intro j b ht hw hi hc
     obtain ⟨h1, h2, h3, h4, h5⟩ := ht
     simp only [List.foldl_cons]
+    have hw' := WF_process alloc b s hw
+    have hll := WF_len_le alloc b hw
+    have hidx := hw.2.2.1
     -- one continuing step
-    obtain ⟨b', hstep, e1, e2, e3, e4⟩ : ∃ b', process true b s = b' ∧ b'.index = j ∧ b'.chksum = c ∧
+    obtain ⟨b', hstep, e1, e2, e3, e4⟩ : ∃ b', process alloc b s = b' ∧ b'.index = j ∧ b'.chksum = c ∧
         b'.buf.len = b.buf.len ∧ b'.buf.units = setSlice b.buf.units (13 * (j - 1)) (units s) := by
-      have a1 : ¬ (order s % 32 = 0 ∨ order s % 32 > 20) := by omega
+      have a1 : ¬ (order s % 32 = 0 ∨ order s % 32 > 20) := by have := hw.1; omega
       have a3 : ¬ (b.index = 0 ∨ order s % 32 ≠ b.index - 1 ∨ chk s ≠ b.chksum) := by
         rw [h4, hc]; omega
       refine ⟨_, rfl, ?_⟩
       rw [process_cont _ _ _ a1 h3 a3]
       simp [h2, hi, hc]
-    rw [hstep]
-    have hpos : 13 * (j - 1) + 13 ≤ b.buf.units.length := by omega
-    have := ih (j - 1) b' h5 (by omega) e2
-      (by rw [e4, e3, setSlice_length _ _ _ (units_length s) hpos, hl]) (by omega) (by omega)
-    rw [e3, e4] at this
+    rw [hstep] at hw' ⊢
+    have hlive : b'.buf.asUnits = setSlice b.buf.asUnits (13 * (j - 1)) (units s) := by
+      unfold LfnBuf.asUnits
+      rw [e3, e4, setSlice_take _ _ _ _ (units_length s) (by omega) hll]
+    have := ih (j - 1) b' h5 hw' (by omega) e2
     obtain ⟨r1, r2, r3, r4⟩ := this
-    refine ⟨r1, r2, r3, ?_⟩
-    rw [r4]
+    refine ⟨r1, r2, by rw [r3, e3], ?_⟩
+    rw [r4, hlive]
     simp only [tailUnits, List.append_assoc]
     congr 1
-    rw [setSlice_drop _ _ _ (by omega)]
+    rw [setSlice_drop _ _ _ (by rw [asUnits_length _ hll]; omega)]
     congr 2
     omega
 
